@@ -313,6 +313,11 @@ func (e *Exec) havocAll(st *State) {
 			keep[k] = e.heapGet(st, k, srt)
 		}
 	}
+	// gostarts counts this function's own go statements: no callee changes it
+	if _, ok := e.L.specs.GhostVars["gostarts"]; ok {
+		e.keySort["X:gostarts"] = sBV64
+		keep["X:gostarts"] = e.heapGet(st, "X:gostarts", sBV64)
+	}
 	// objects allocated by this function that provably never escape it keep their contents
 	type kept struct{ pc, key, srt, ref, old string }
 	var ks []kept
